@@ -47,7 +47,7 @@ CHECKS.update({
         note="Trusted: container/heap pops in sorted order for a strict weak order (library contract, exercised); Coq kernel, extraction, drivers; agreement sampled per run. The relative order of ClusterCIDRs WITHOUT selector (all come last) is creation order in code and model; the property does not fix it.",
         ref="§5 C07"),
     "C17": dict(
-        technique="Coq proof (the print/parse round trip of label selectors proved of a model of apimachinery's validation, printer, lexer and parser; nodeSelectorKey yields a key exactly for representable selectors; on that key matchCIDRLabels says 'match' iff every requirement holds; same key => same meaning; semantics of the six operators; unrepresentable selector rejected) + differential correspondence: labels.Parse vs the model on arbitrary texts, nodeSelectorKey byte for byte, and the real print/parse path vs the model applied to the selector's own requirements",
+        technique="Coq proof (the print/parse round trip of label selectors proved of a model of apimachinery's validation, printer, lexer and parser; nodeSelectorKey yields a key exactly for representable selectors; on that key matchCIDRLabels says 'match' iff every requirement holds; same key => same meaning; semantics of the six operators; unrepresentable selector rejected) + differential correspondence: labels.Parse vs the model on arbitrary texts, nodeSelectorKey byte for byte, the real print/parse path vs the model applied to the selector's own requirements, and the considered list (orderedMatchingClusterCIDRs) on populations of ClusterCIDRs with and without selectors",
         text="Theorems (Properties/C17.v): C17_print_parse_round_trip, C17_key_exactly_for_representable_selectors, C17_considered_iff_selector_holds, C17_same_key_same_meaning hold for every list of requirements labels.NewRequirement accepts; tied to the code by running labels.Parse, nodeSelectorKey and matchCIDRLabels against the model on ~20,000 lines per run including keys 'in'/'notin', numeric comparisons, repeated keys, empty values, NUL bytes and token soup.",
         note="The theorems are about Lbl.v, a hand transcription of k8s.io/apimachinery/pkg/labels/selector.go v0.28.3 and util/validation (modelled, not verified; sort.Sort modelled as a stable sort, the theorems hold for any order of equal keys); its agreement with the library is sampled per run. Trusted also: Coq kernel, extraction, drivers.",
         ref="§5 C17"),
